@@ -35,6 +35,9 @@ func (c14) Gen(r *rand.Rand, tier string, run int) *core.Case {
 	c.Params["conns"] = 1 + r.IntN(clients)
 	c.Params["subscribers"] = 1 + r.IntN(2)
 	c.Params["instrument"] = []int{0, 0, 0, 1, 2, 3}[r.IntN(6)]
+	if r.IntN(4) == 0 {
+		c.Params["unset_level"] = 1
+	}
 	next := int64(1)
 	total := 0
 	for k := 0; k < clients && total < 13; k++ {
@@ -52,7 +55,7 @@ func (c14) Gen(r *rand.Rand, tier string, run int) *core.Case {
 				op = core.Op{Kind: "set-rejected", X: -next}
 				next++
 			case x < 10:
-				op = core.Op{Kind: "set-wrong-type", X: int64(r.IntN(8)), Y: int64(r.IntN(2)), S: strconv.Itoa(int(next))}
+				op = core.Op{Kind: "set-wrong-type", X: int64(r.IntN(8)), Y: int64([]int{0, 0, 1, 1, 2, 3, 4}[r.IntN(7)]), S: strconv.Itoa(int(next))}
 				next++
 			case x < 11:
 				op = core.Op{Kind: "rawget"}
@@ -290,8 +293,18 @@ func (c14) Run(c *core.Case, env *core.Env) {
 						v = value.Int16(int16(n))
 					}
 					var name value.Value = value.String("level")
-					if op.Y == 1 {
+					switch op.Y {
+					case 1:
 						name = value.Uint(PropLvl)
+					case 2:
+						// a well-typed value under a name of the wrong kind
+						name, v = value.Int(int32(PropLvl)), value.Int(int32(n))
+					case 3:
+						// ... under a name no property has
+						name, v = value.String("nope"), value.Int(int32(n))
+					case 4:
+						// ... under the id of a signal
+						name, v = value.Uint(SigTick), value.Int(int32(n))
 					}
 					h := env.Invoke(a, "set-wrong-type", v.Signature()+":"+op.S)
 					err := p.SetProperty(name, v)
@@ -365,6 +378,17 @@ func (c14) Check(c *core.Case, env *core.Env, res zzsim.Result, v *core.Verdict)
 				}
 			}
 		}
+		if (h.Kind == "get" || h.Kind == "rawget") && !h.OK && c.Net.FaultGap == 0 && !containsStr(h.Err, "unexpected signature") {
+			switch {
+			case containsStr(h.Err, "property unknown") && c.P("unset_level", 0) == 1:
+				// legal while nobody has written the property yet: judged
+				// by the register model (PostCheck)
+				env.Probe("read-of-unset-property")
+			case containsStr(h.Err, "consumer blocked"):
+			default:
+				bad("read-failed", "a read failed on a healthy connection: %s", h)
+			}
+		}
 	}
 	if pending || !res.Quiescent {
 		return
@@ -414,6 +438,10 @@ func containsStr(s, sub string) bool {
 	return false
 }
 
+// c14unset is the register's state before the first write when the object
+// does not set its property at activation (written values are small).
+const c14unset = int32(-1 << 31)
+
 type c14in struct {
 	kind string // get | set | bad
 	v    int32
@@ -440,11 +468,17 @@ func (c14) PostCheck(c *core.Case, env *core.Env, v *core.Verdict) {
 		switch h.Kind {
 		case "get":
 			if !h.OK {
+				if containsStr(h.Err, "property unknown") {
+					ops = append(ops, porcupine.Operation{ClientId: h.Client, Input: c14in{"get-unset", 0}, Call: h.Call, Output: c14out{false, 0}, Return: h.Ret})
+				}
 				continue
 			}
 			val, _ := strconv.Atoi(h.Out)
 			ops = append(ops, porcupine.Operation{ClientId: h.Client, Input: c14in{"get", 0}, Call: h.Call, Output: c14out{true, int32(val)}, Return: h.Ret})
 		case "rawget":
+			if !h.OK && containsStr(h.Err, "property unknown") {
+				ops = append(ops, porcupine.Operation{ClientId: h.Client, Input: c14in{"get-unset", 0}, Call: h.Call, Output: c14out{false, 0}, Return: h.Ret})
+			}
 			if !h.OK || len(h.Out) < 3 || h.Out[:2] != "i:" {
 				continue
 			}
@@ -456,15 +490,27 @@ func (c14) PostCheck(c *core.Case, env *core.Env, v *core.Verdict) {
 			ops = append(ops, porcupine.Operation{ClientId: h.Client, Input: c14in{"bad", 0}, Call: h.Call, Output: c14out{h.OK, 0}, Return: h.Ret})
 		}
 	}
+	unset := c.P("unset_level", 0) == 1
 	model := porcupine.NondeterministicModel{
-		Init: func() []interface{} { return []interface{}{int32(0)} },
+		Init: func() []interface{} {
+			if unset {
+				return []interface{}{c14unset}
+			}
+			return []interface{}{int32(0)}
+		},
 		Step: func(state, input, output interface{}) []interface{} {
 			s := state.(int32)
 			in := input.(c14in)
 			out := output.(c14out)
 			switch in.kind {
 			case "get":
-				if out.v == s {
+				if out.v == s && s != c14unset {
+					return []interface{}{s}
+				}
+				return nil
+			case "get-unset":
+				// "property unknown": only before the first accepted write
+				if s == c14unset {
 					return []interface{}{s}
 				}
 				return nil
